@@ -96,6 +96,9 @@ where
                     if c == b' ' || c == b'\n' {
                         out.extend_from_slice(b"\\ ");
                     } else {
+                        if c == b'\\' {
+                            out.push(b'\\');
+                        }
                         out.push(c);
                     }
                 }
